@@ -116,7 +116,20 @@ def codecStep (t : List String) (implObs : String) : Option (String × String) :
       let m := match readRotMsg b with
         | some m => s!"ok:id={m.id}|p={Bytes.toHexOrDash m.propose}|c={match m.confirm with | some c => Bytes.toHexOrDash c | none => "none"}"
         | none => "err"
-      some (m, if implObs = "panic" then "FAIL panic" else "ok")
+      -- C16 "decode to exactly what was encoded", stated on the bytes: id = the first 8 bytes; then one length byte and that many bytes of the
+      -- proposed key; then one length byte and that many bytes of the confirmed key (absent iff the length is 0); error iff the input is shorter
+      let specDec : Option (Nat × Bytes × Option Bytes) :=
+        if b.length < 9 then none else
+        let pl := b.getD 8 0
+        if b.length < 9 + pl + 1 then none else
+        let cl := b.getD (9 + pl) 0
+        if b.length < 10 + pl + cl then none else
+        some (Bytes.beVal (b.take 8), (b.drop 9).take pl, if cl = 0 then none else some ((b.drop (10 + pl)).take cl))
+      let want := match specDec with
+        | some (id, p, c) => s!"ok:id={id}|p={Bytes.toHexOrDash p}|c={match c with | some c => Bytes.toHexOrDash c | none => "none"}"
+        | none => "err"
+      some (m, if implObs = "panic" then "FAIL panic" else if (implObs.splitOn " alloc=").headD "" = want then "ok"
+               else "FAIL C16 rotation message does not decode to the key lengths and bytes it carries")
   | _ => none
 
 end Driver
